@@ -143,6 +143,9 @@ def _family(name: str, tier: str) -> t.List[dict]:
     elif name == 'rec':
         for n in range(3, (5 if q else 6) + 1):
             out += programs(n, 1, 1, kinds=('rec',), rec_max=2 if n <= 5 else 1)
+        # max_iterations = 0 (legal: the first Recurrent result already exhausts the subgraph)
+        for n in range(3, (4 if q else 5) + 1):
+            out += programs(n, 1, 1, kinds=('rec',), rec_max=0)
     elif name == 'mix':
         # every ordered pair of constructs nested one level; role overlaps that have their own families
         # (second consumer of a recurrent destination, outside readers, shared cases) are excluded here
@@ -532,11 +535,16 @@ def plans(spec: dict, tier: str = 'quick', pairs: bool = False) -> t.List[dict]:
     b0 = bases[0]
     for s, _ in sws:
         add(dict(b0, **{s: ['label:zz']}))
+        add(dict(b0, **{s: ['unhashable']}))        # a label that cannot be hashed matches no case either
     for n in names[1:]:
         if n not in b0:
             add(dict(b0, **{n: ['none']}))
             add(dict(b0, **{n: ['zero']}))
     add(dict(b0, **{names[0]: ['none']}))
+    # a failure whose exception cannot be rendered (str(e) raises)
+    for n in names:
+        if n not in b0:
+            add(dict(b0, **{n: ['raise:E3']}))
     # unusual but legal VALUES: one whose truth value raises (array-like), and an exception instance returned as a value
     for n in names:
         if n not in b0:
